@@ -131,11 +131,23 @@ class World:
             if kind == "raise":
                 raise RuntimeError("handler failure (workload)")
             if kind == "register":
-                # late registration: a handler that registers another decorator handler while the loop is running
+                # late registration: a handler that registers another handler while the loop is running - for some command,
+                # for the very command being handled ("same"), or as a catch-all
                 n = len(st["late_regs"])
-                new_hid = f"late:{hspec['cmd']}#{n}"
-                st["late_regs"].append((st["objgen"], st["tasks_received"], hspec["cmd"], new_hid))
-                client.handle(hspec["cmd"])(world.make_handler(k, new_hid, hspec["new"]))
+                cmd = hspec["cmd"]
+                if cmd == "same":
+                    cmd = int(task.command) if task is not None else -1
+                if cmd == "catch_all":
+                    cmd = -1
+                new_hid = f"late:{cmd}#{n}"
+                st["late_regs"].append((st["objgen"], st["tasks_received"], cmd, new_hid))
+                if cmd == -1:
+                    client.catch_all()(world.make_handler(k, new_hid, hspec["new"]))
+                    world.res.probes["late_catch_all_registration"] += 1
+                else:
+                    client.handle(cmd)(world.make_handler(k, new_hid, hspec["new"]))
+                    if hspec["cmd"] == "same":
+                        world.res.probes["late_registration_for_command_being_handled"] += 1
                 world.res.probes["late_registration"] += 1
                 return None
             if kind == "setsleep":
@@ -745,7 +757,7 @@ class World:
                 if nm in methods:
                     want.append(f"method:{nm}")
                 if not want:
-                    want = list(catch)
+                    want = list(catch) + [hid for (inc, tno, c_, hid) in st["late_regs"] if c_ == -1 and inc == inc_i and tno < i]
                     if "catch_all" in methods:
                         want.append("method:catch_all")
                 got = by_task.get(i, [])
